@@ -61,16 +61,18 @@ def step (s : St) (w : List String) : St × String :=
       let m : Msg := ⟨b, c⟩
       ({ m := some m }, s!"R ok{tail m m "0"} | S ok ; {toHex m.flat}")
     | _ => (s, "bad-op")
-  | ["m", "qget", mx, off, fill, pos, take] =>
+  | "m" :: "qget" :: mx :: off :: fill :: pos :: take :: flag =>
+    if flag ≠ [] ∧ flag ≠ ["novec"] then (s, "bad-op") else
+    let novec := flag = ["novec"]
     match mx.toNat?, off.toNat?, parseHex fill, pos.toNat?, take.toNat? with
     | some mx, some off, some f, some pos, some take =>
       if off ≤ mx ∧ f.length ≤ mx ∧ mx ≠ 0 then
         let r := Ring.make mx off f
         let e : Msg := ⟨[], []⟩
         let sp := match Flat.get f pos take with
-          | some d => s!"ok ; {toHex d}"
+          | some d => s!"ok ; {toHex d}" ++ (if novec then " || refused ; -" else "")
           | none => "refused ; -"
-        match Msg.get r pos take with
+        match (if novec then Msg.getNoVec r pos take else Msg.get r pos take) with
         | .ok m => ({ m := some m }, s!"R ok{tail e m (toString m.clen)} | S {sp}")
         | x => ({ m := some e }, s!"R refused{tail e e (resCode x)} | S {sp}")
       else (s, "bad-op")
@@ -144,14 +146,17 @@ def step (s : St) (w : List String) : St × String :=
           | (m1, .err e) => ({ m := some m1 }, s!"R ret={e.name}{tail m m1 (toString e.code)} | S {sp}")
           | (m1, x) => ({ m := some m1 }, s!"R ret={resCode x}{tail m m1 (resCode x)} | S {sp}")
         | none => (s, "bad-op")
-      | "args", [b] =>
+      | "args", b :: flag =>
+        if flag ≠ [] ∧ flag ≠ ["nomem"] then (s, "bad-op") else
+        let nomem := flag = ["nomem"]
         match parseByte b with
         | some sep =>
-          let sp := match Flat.args d sep with
+          let sp := (match Flat.args d sep with
             | some (n, c) => s!"ret={n} out={toHex c} ; {toHex d}"
-            | none => s!"ret=FAULT out=- ; {toHex d}"
-          match m.arrayMessage sep with
+            | none => s!"ret=FAULT out=- ; {toHex d}") ++ (if nomem then s!" || ret=BadOperation out=- ; {toHex d}" else "")
+          match m.arrayMessage sep (!nomem) with
           | .ok (n, c) => (s, s!"R ret={n} out={toHex c}{tail m m (toString n)} | S {sp}")
+          | .err e => (s, s!"R ret={e.name} out=-{tail m m (toString e.code)} | S {sp}")
           | x => (s, s!"R ret={resCode x} out=-{tail m m (resCode x)} | S {sp}")
         | none => (s, "bad-op")
       | "append", [h] =>
